@@ -61,7 +61,7 @@ Proof.
   all: step_cases2 Hs; fold_fst.
   all: split; [autorewrite with wm; reflexivity|].
   all: intros e He; cbn [In app] in He.
-  all: unfold do_construct, do_destroy, do_dealloc, do_alloc, null_call, lfault in *.
+  all: unfold do_construct, do_destroy, do_dealloc, do_dealloc_raw, do_alloc, null_call, lfault in *.
   all: repeat match goal with
          | H : context [let '(_, _) := ?x in _] |- _ => destruct x eqn:?
          | H : context [if ?b then _ else _] |- _ => destruct b eqn:?
@@ -138,6 +138,7 @@ Proof.
   all: try apply construct_fields.
   all: try apply destroy_fields.
   all: try apply dealloc_fields.
+  all: try apply dealloc_raw_fields.
   all: try (etransitivity; [apply modc_fields|]; reflexivity).
 Qed.
 
@@ -171,7 +172,7 @@ Lemma mo_table t c g l g' l' es e :
   if is_atomic_kind (ek e) then emo e = site_mo (at_ l) else emo e = MO_NA.
 Proof.
   intros Hs He. destruct l as [pr p h its0]. destruct p; step_cases2 Hs.
-  all: unfold do_construct, do_destroy, do_dealloc, do_alloc, null_call, lfault in *.
+  all: unfold do_construct, do_destroy, do_dealloc, do_dealloc_raw, do_alloc, null_call, lfault in *.
   all: repeat match goal with
          | H : context [let '(_, _) := ?x in _] |- _ => destruct x eqn:?
          | H : context [if ?b then _ else _] |- _ => destruct b eqn:?
